@@ -25,6 +25,7 @@ PARTY_VARIANTS = [
                ["address", None, {"id": f"adr{i}"}, [["city", "C", {}, []]]],
                ["electronicMailAddress", f"e{i}@x.org", {}, []]],
     lambda i: [["organizationName", f"O{i}", {}, []], ["userId", "u", {"directory": "https://orcid.org"}, []]],
+    lambda i: [],          # a referenced element that has an id but no children at all
 ]
 
 
@@ -65,7 +66,7 @@ def party_cases(tier):
                 continue
             t_idx = [i for i, r in enumerate(roles) if r == "T"]
             s_idx = [i for i, r in enumerate(roles) if r == "S"]
-            variants = itertools.product(range(3), repeat=nt) if (tier == "thorough" or nt <= 2) else [(0, 1, 2)]
+            variants = itertools.product(range(4), repeat=nt) if (tier == "thorough" or nt <= 2) else [(0, 1, 2), (3, 0, 1), (2, 3, 3)]
             for vs in variants:
                 for targets in itertools.product(t_idx, repeat=ns):
                     def build(dangling=None, dup=None):
@@ -105,7 +106,7 @@ def role_cases(tier):
                 continue
             t_idx = [i for i, r in enumerate(roles) if r == "T"]
             s_idx = [i for i, r in enumerate(roles) if r != "T"]
-            for v in range(3):
+            for v in range(4):
                 for targets in itertools.product(t_idx, repeat=len(s_idx)):
                     def build(dangling=None):
                         parts = []
@@ -292,7 +293,7 @@ def check(spec, fault, case, do_edits=True):
         except Exception as e:  # noqa
             bad("valid_tree_invalid_after", "still validates", repr(e))
     # independence of the copies (reduced edit menu, either side)
-    if do_edits and not probs and new_nodes:
+    if do_edits and not probs and new_nodes and _first_target_has_children(spec):
         # (in-place writes into node.nsmap are not an edit the library supports on attached nodes: maps are shared
         #  copy-on-write between relatives with equal bindings; namespaces are edited through add_namespace)
         labels = ["set_content", "add_attribute_new", "attributes_dict_inplace", "extras_dict_inplace",
@@ -322,6 +323,14 @@ def check(spec, fault, case, do_edits=True):
                     bad("copy_not_independent", "edit invisible on the other side",
                         gtree.snap_diff(snap_other, gtree.snap(other)), edit=lab, side=side)
     return probs
+
+
+def _first_target_has_children(spec):
+    idmap = ids_in(spec)
+    for p, n in e3.nodes_with_paths(spec):
+        if n[0] == "references":
+            return bool(e3.get(spec, idmap[n[1]][0])[3])
+    return False
 
 
 def e3_node(root, path):
